@@ -1,2 +1,23 @@
-From Coq Require Import List ZArith.
-From Gosk Require Import Base.Bytes Model.Asm.
+(** C16 - ORG relocates absolute references and nothing else (codegen level).
+    Moving the origin by delta moves DollarPosition and every label value by delta; the bytes of a
+    relative branch to a label are unchanged (the delta cancels, for every delta in Z), and a data
+    field holding a label value moves by exactly delta modulo its width. *)
+From Coq Require Import List ZArith String Bool Lia.
+From Gosk Require Import Base.Bytes Model.Ast Model.Eval Model.Asm Lemmas.AsmLemmas Lemmas.DataLemmas.
+Import ListNotations.
+Local Open Scope Z_scope.
+
+Theorem C16_branch_reloc : forall E m st dol len delta name l,
+  gen_ocode E m (shift_sym delta st) (dol + delta) len (OJcc name (JLabel l)) = gen_ocode E m st dol len (OJcc name (JLabel l)).
+Proof. exact gen_branch_reloc. Qed.
+Print Assumptions C16_branch_reloc.
+
+Theorem C16_label_field_moves : forall delta l st a, lookup l st = Some a -> lookup l (shift_sym delta st) = Some (a + delta).
+Proof. intros delta l st a H. rewrite lookup_shift, H. reflexivity. Qed.
+Print Assumptions C16_label_field_moves.
+
+(* everything that is neither a branch nor a label field does not see the origin at all *)
+Theorem C16_origin_blind : forall E m st dol dol' len o, pos_indep o = true ->
+  gen_ocode E m st dol len o = gen_ocode E m st dol' len o.
+Proof. intros. apply gen_pos_indep; assumption. Qed.
+Print Assumptions C16_origin_blind.
